@@ -1004,6 +1004,10 @@ func matchTypeCast(pkg *Package, typ types.Type, fn *internal.Elem, args []*inte
 				}
 			}
 		}
+		// neither convertible by Go's rules nor by a cast extension
+		src, pos, end := pkg.cb.loadExpr(arg.Src)
+		err = pkg.cb.newCodeError(pos, end, fmt.Sprintf("cannot convert %v (type %v) to type %v", src, arg.Type, typ))
+		return
 	case 0:
 		// T() means to return zero value of T
 		return pkg.cb.ZeroLit(typ).stk.Pop(), nil
